@@ -8,6 +8,7 @@ import (
 	"golang.org/x/tools/go/ssa"
 
 	"lbcheck/eng"
+	"lbcheck/ir"
 )
 
 func init() {
@@ -16,7 +17,7 @@ func init() {
 		LevelText:   "Structural clauses decided for all paths: every stream / consumer-group operation that apply handles produces an activity event and every activity op constant is produced; the event id is the Raft index of the entry being handled and is what is recorded; the dispatcher advances its index only past non-command entries or after a successful publish, retries the same entry otherwise, and starts at last-published + 1; the event is published before its index is recorded through Raft; dispatch runs only with controller leadership. At-least-once across real fail-overs and ordering inside the activity partition are not decided.",
 		LevelNote:   "Trusted: go/ssa; Raft log store returns entries by index; the activity stream's own partition (C01/C03).",
 		DesignRef:   "DESIGN.md §4 C18",
-		Explanation: "R18.1 coverage tables, R18.2 event id identity, R18.3 order and retry in dispatch, R18.4 publish-then-record, R18.5 who may start dispatch / record the index; R18.1 also requires each event to carry its payload and a handled op to be dropped only for a member-less group; R18.3 the exact wait test, the dispatcher start and a fresh stop channel per term. NOT decided: at-least-once across real fail-overs.",
+		Explanation: "R18.1 coverage tables, R18.2 event id identity, R18.3 order and retry in dispatch, R18.4 publish-then-record, R18.5 who may start dispatch / record the index, R18.6 the server's own publish is not put through client authorisation; R18.1 also requires each event to carry its payload and a handled op to be dropped only for a member-less group; R18.3 the exact wait test, the dispatcher start and a fresh stop channel per term. NOT decided: at-least-once across real fail-overs.",
 	})
 }
 
@@ -292,7 +293,21 @@ func runC18(c *eng.Ctx) {
 	// ---- R18.4
 	c.Rule("R18.4", "K2")
 	if fn := c.Fn("server.(*activityManager).publishActivityEvent"); fn != nil {
-		pub := eng.CallsIn(fn, "server.apiServer.Publish")
+		// the publish: the module call that is handed the event's PublishRequest
+		var pub []ssa.CallInstruction
+		eng.Instrs(fn, func(in ssa.Instruction) {
+			call, ok := in.(*ssa.Call)
+			if !ok || call.Call.StaticCallee() == nil || !p.IsModuleFunc(call.Call.StaticCallee()) {
+				return
+			}
+			for _, a := range call.Call.Args {
+				if pt, ok := a.Type().(*types.Pointer); ok {
+					if nt, ok := pt.Elem().(*types.Named); ok && nt.Obj().Name() == "PublishRequest" {
+						pub = append(pub, call)
+					}
+				}
+			}
+		})
 		rec := eng.CallsIn(fn, "server.raftNode.applyOperation")
 		if len(pub) != 1 || len(rec) != 1 {
 			c.Unresolved("api.Publish / applyOperation in publishActivityEvent")
@@ -303,6 +318,27 @@ func runC18(c *eng.Ctx) {
 			g, w := eng.GuardedBy(fn, rec[0].(ssa.Instruction), okEdge)
 			c.Check(g && len(okEdge) > 0, "index recorded only after the event was published", c.Pos(rec[0].(ssa.Instruction)), "applyOperation(PUBLISH_ACTIVITY) is reached only over err == nil of api.Publish", "the published index can be recorded although the publish failed (path "+w.String()+"): the event is lost")
 		}
+	}
+	c.Floor(1)
+
+	// ---- R18.6 the server's own publish is not subject to client authorisation: it carries no client identity, so with
+	// authorisation switched on a publish that passes through ensureAuthorizationPermission is refused every time and the
+	// dispatcher retries the same event for ever
+	c.Rule("R18.6", "K3")
+	if fn := c.Fn("server.(*activityManager).publishActivityEvent"); fn != nil {
+		via := ""
+		for _, f := range moduleReach(c, fn, 4) {
+			if ir.FuncKey(f) == "server.(*apiServer).ensureAuthorizationPermission" {
+				via = "reached"
+			}
+		}
+		bare := false
+		eng.Instrs(fn, func(in ssa.Instruction) {
+			if call, ok := in.(*ssa.Call); ok && eng.CalleeRef(&call.Call) == "context.Background" {
+				bare = true
+			}
+		})
+		c.Check(via == "" || !bare, "activity events are published without a client permission check", p.Pos(fn.Pos()), "publishActivityEvent does not reach ensureAuthorizationPermission", "publishActivityEvent publishes with a context that carries no client identity through ensureAuthorizationPermission: with client authorisation enabled every activity event is refused (\"Failed to retrieve client ID\") and none of the committed operations ever appears in the activity stream")
 	}
 	c.Floor(1)
 
